@@ -569,6 +569,21 @@ theorem handle_Bud (R : Remote) (M : Nat) {s : State} (hq : QInv s) (hr : RMid s
   | fireExpire remote mid => exact z ⟨rfl, NoAck_nil⟩
   | shutdown => exact shutdown_Bud R M s
 
+instance : DecidablePred AppOk := by
+  intro ev; cases ev <;> unfold AppOk <;> infer_instance
+
+/-- `AppOk` is necessary: an application message submitted with its type set to ACK goes out as an
+ACK (under a fresh ID) although no confirmable message was received and no opportunity was
+pending — the step inequality fails on the initial state. -/
+example :
+    let s := init { exchangeLifetime := 1000, emptyAckDelay := 10 } 500 0 (fun _ => 20)
+    let ev : Ev := .submit 0 1 false false
+      { mtype := some .ack, reliability := none, code := 1, obs := none, body := 0, noResponse := 0,
+        maxRetr := 4 }
+    ¬ AppOk ev ∧
+    ¬ (ackCount 1 500 (handle s ev).2 + oppCount 1 500 (handle s ev).1 ≤
+        oppCount 1 500 s + conRecv 1 500 ev) := by decide
+
 theorem step_Bud (R : Remote) (M : Nat) {s : State} (hq : QInv s) (hr : RMid s) (e : TEv)
     (ha : AppOk e.ev) :
     ackCount R M (step s e).2 + oppCount R M (step s e).1 ≤ oppCount R M s + conRecv R M e.ev :=
